@@ -5,8 +5,11 @@
     [h := SharedMutex.Lock(maps[i]); <critical section>; h.Unlock()] — any number of holders, any
     lock maps ([nodup_maps]: the keys of a Go map are distinct), one atomic step per
     RLock / Lock-announce / Lock-acquire / RUnlock / Unlock on a writer-preferring RW mutex per
-    name; [run sched] is an arbitrary interleaving. *)
-From GC Require Import Common.Base Model.Locks Proofs.Locks.
+    name; [run sched] is an arbitrary interleaving.
+
+    The second half of the file (from C15_blocked_only_by_incompatible on) was added by the proof
+    audit; the proofs are in Proofs/C15More.v and Proofs/C15Nested.v. *)
+From GC Require Import Common.Base Model.Locks Model.LocksNested Proofs.Locks Proofs.C15More Proofs.C15Nested.
 Local Open Scope nat_scope.
 
 (** Two holders that are inside their critical sections at the same time and whose maps share a
@@ -142,3 +145,223 @@ Local Open Scope N_scope.
 Example C15_ex_sort :
   sort_rows [([98], true); ([97; 98], false); ([97], true)] = [([97], true); ([97; 98], false); ([98], true)].
 Proof. vm_compute. reflexivity. Qed.
+
+(** ** Proof audit: the clauses at full strength *)
+Local Open Scope nat_scope.
+
+(** NOT SERIALISED, in ANY family (supersedes C15_no_serialisation, which needs every pair of the
+    family to be compatible).  Whoever is there and however they conflict among themselves: a
+    holder that cannot take its next step waits for a name [x] that ANOTHER holder occupies (holds,
+    or is the announced writer of) and on which the two maps conflict (both name [x], one of them
+    for writing).  So the lock never makes a holder wait for a holder it is compatible with. *)
+Theorem C15_blocked_only_by_incompatible : forall maps sched i t mi,
+  let s := run sched (sys maps) in
+  NoDup (map fst mi) ->
+  nth_error (ths s) i = Some t -> nth_error maps i = Some mi ->
+  final_thread t = false -> step i s = None ->
+  exists x j tj mj,
+    j <> i /\ nth_error (ths s) j = Some tj /\ nth_error maps j = Some mj /\
+    waits t x /\ occupies tj x /\ conflicts x mi mj.
+Proof. exact blocked_only_by_incompatible. Qed.
+Print Assumptions C15_blocked_only_by_incompatible.
+
+(** The bystander: a holder compatible with everybody who currently occupies anything is never
+    made to wait, at no point of its Lock / Unlock. *)
+Theorem C15_bystander_never_waits : forall maps sched i t mi,
+  let s := run sched (sys maps) in
+  NoDup (map fst mi) ->
+  nth_error (ths s) i = Some t -> nth_error maps i = Some mi -> final_thread t = false ->
+  (forall j tj mj, j <> i -> nth_error (ths s) j = Some tj -> nth_error maps j = Some mj ->
+                   present tj = true -> compat mi mj) ->
+  step i s <> None.
+Proof. exact bystander_never_waits. Qed.
+Print Assumptions C15_bystander_never_waits.
+
+(** Any pairwise compatible SUB-family [J] of an arbitrary family can be inside all at once: by a
+    schedule on which no step is skipped and nobody outside [J] moves (supersedes
+    C15_no_serialisation_all_inside = the case where J is everybody). *)
+Theorem C15_compatible_subfamily_all_inside : forall maps (J : list nat),
+  (forall i m, In i J -> nth_error maps i = Some m -> NoDup (map fst m)) ->
+  (forall i j a b, In i J -> In j J -> i <> j ->
+                   nth_error maps i = Some a -> nth_error maps j = Some b -> compat a b) ->
+  exists sched,
+    (forall i, In i sched -> In i J) /\
+    run_strict sched (sys maps) <> None /\
+    forall i m, In i J -> nth_error maps i = Some m ->
+                nth_error (ths (run sched (sys maps))) i = Some (TIn (lock_prog m)).
+Proof. exact subfamily_all_inside. Qed.
+Print Assumptions C15_compatible_subfamily_all_inside.
+
+(** ALL GET THEIR TURN, on every round-fair schedule, with an explicit bound and without a
+    fairness axiom.  From any reachable state: let the run continue with [rounds], each of which
+    mentions every holder at least once (any order, anything else in between, disabled entries
+    are skipped); after as many rounds as the measure of the state everybody has finished and
+    every lock is free.  From the initial state the measure is 2r + 3w + 2 summed over the
+    holders (r read names, w write names: C15_measure_sys). *)
+Theorem C15_fair_rounds_finish : forall maps sched rounds,
+  nodup_maps maps ->
+  (forall r, In r rounds -> covers (length maps) r) ->
+  measure (run sched (sys maps)) <= length rounds ->
+  let s' := run (sched ++ concat rounds) (sys maps) in
+  all_final s' = true /\ forall x, lk s' x = lock0.
+Proof. exact fair_rounds_finish. Qed.
+Print Assumptions C15_fair_rounds_finish.
+
+Theorem C15_measure_sys : forall maps, measure (sys maps) = sumf holder_cost maps.
+Proof. exact measure_sys. Qed.
+Print Assumptions C15_measure_sys.
+
+(** However a schedule skips: at most [measure] of its entries are steps that happen
+    (C15_all_finish_bounded speaks about schedules without skipped entries only). *)
+Theorem C15_effective_steps_bounded : forall progs sched,
+  effective sched (init progs) <= measure (init progs).
+Proof. exact effective_bounded. Qed.
+Print Assumptions C15_effective_steps_bounded.
+
+(** ... and finishing means having had one's turn: an execution at whose end everybody has
+    finished went, for every holder, through a state in which that holder is inside its critical
+    section holding exactly the rows of its map. *)
+Theorem C15_finished_was_inside : forall maps sched i m,
+  nth_error maps i = Some m ->
+  all_final (run sched (sys maps)) = true ->
+  exists pre post, sched = pre ++ post /\
+                   nth_error (ths (run pre (sys maps))) i = Some (TIn (lock_prog m)).
+Proof. exact finished_was_inside. Qed.
+Print Assumptions C15_finished_was_inside.
+
+(** THE TIE.  The correspondence check accepts a recorded trace with [accepts]; acceptance means
+    what it should: the trace is the projection of a complete execution of the model (no skipped
+    step, everybody finished, EVERY lock free), and the holders the trace shows inside together
+    after any of its prefixes have compatible maps - the exclusion oracle of the harness is a
+    consequence of acceptance. *)
+Theorem C15_accepts_is_execution : forall maps tr,
+  accepts maps tr = true ->
+  exists sched s, run_strict sched (sys maps) = Some s /\ all_final s = true /\
+                  forall x, lk s x = lock0.
+Proof. exact accepts_is_execution. Qed.
+Print Assumptions C15_accepts_is_execution.
+
+Theorem C15_accepted_trace_exclusive : forall maps pre post i j mi mj x m1 m2,
+  accepts maps (pre ++ post) = true -> i <> j ->
+  In i (inside_after pre []) -> In j (inside_after pre []) ->
+  nth_error maps i = Some mi -> nth_error maps j = Some mj ->
+  In (x, m1) mi -> In (x, m2) mj -> m1 = MR /\ m2 = MR.
+Proof. exact accepted_trace_exclusive. Qed.
+Print Assumptions C15_accepted_trace_exclusive.
+
+(** ALL HOLD DURATIONS, taken to the limit: a holder whose critical section WAITS FOR OTHER HOLDERS
+    (Model/LocksNested.v: the runner keeps a task's locks until the sub-tasks its body submitted
+    have finished; [deps i] = whom holder [i] awaits; [stepN] = [step] with that guard).
+    Without a discipline the guarantee is lost - three deadlocks, all three reproduced on the Go
+    code (see DESIGN.md): (a) the sub-task wants what its parent holds; (b) the sub-task only
+    READS what its parent reads (compatible maps!) and a writer has announced itself in between;
+    (c) the sub-task's map is disjoint from its parent's but lies below it, and a third holder
+    wants both. *)
+Theorem C15_nested_self_refuted : deadlocked ns_self_maps ns_self_deps ns_self_sched.
+Proof. exact nested_self_refuted. Qed.
+Print Assumptions C15_nested_self_refuted.
+
+Theorem C15_nested_recursive_read_refuted :
+  deadlocked ns_read_maps ns_read_deps ns_read_sched /\
+  (forall a b, nth_error ns_read_maps 0 = Some a -> nth_error ns_read_maps 1 = Some b -> compat a b).
+Proof. exact nested_recursive_read_refuted. Qed.
+Print Assumptions C15_nested_recursive_read_refuted.
+
+Theorem C15_nested_cross_refuted :
+  deadlocked ns_cross_maps ns_cross_deps ns_cross_sched /\
+  (forall a b x m1 m2, nth_error ns_cross_maps 0 = Some a -> nth_error ns_cross_maps 1 = Some b ->
+                       In (x, m1) a -> In (x, m2) b -> False).
+Proof. exact nested_cross_refuted. Qed.
+Print Assumptions C15_nested_cross_refuted.
+
+(** With the lock order continued through the nesting - sub-tasks are created after their parent,
+    a holder awaits the sub-tasks of its sub-tasks too, and every name of a sub-task lies ABOVE
+    every name of the holders awaiting it - no reachable state is a deadlock (any holders, maps,
+    nesting depth, interleaving), an execution can only stop with everybody finished and every
+    lock free, and from every reachable state everybody can finish.  With [deps = []] this is
+    C15_no_deadlock / C15_all_finish / C15_can_finish. *)
+Theorem C15_nested_ordered_no_deadlock : forall maps deps sched,
+  nodup_maps maps -> deps_forward deps -> deps_closed deps -> deps_above maps deps ->
+  let s := runN deps sched (sys maps) in
+  all_final s = false -> exists i, i < length maps /\ stepN deps i s <> None.
+Proof. exact nested_ordered_no_deadlock. Qed.
+Print Assumptions C15_nested_ordered_no_deadlock.
+
+Theorem C15_nested_ordered_all_finish : forall maps deps sched,
+  nodup_maps maps -> deps_forward deps -> deps_closed deps -> deps_above maps deps ->
+  let s := runN deps sched (sys maps) in
+  (forall i, stepN deps i s = None) -> all_final s = true /\ forall x, lk s x = lock0.
+Proof. exact nested_ordered_stuck_is_finished. Qed.
+Print Assumptions C15_nested_ordered_all_finish.
+
+Theorem C15_nested_ordered_can_finish : forall maps deps sched,
+  nodup_maps maps -> deps_forward deps -> deps_closed deps -> deps_above maps deps ->
+  exists sched', all_final (runN deps (sched ++ sched') (sys maps)) = true.
+Proof. exact nested_ordered_can_finish. Qed.
+Print Assumptions C15_nested_ordered_can_finish.
+
+(** Non-vacuity of the new implications. *)
+(* a parked holder and a bystander: 0 writes name 0 and is inside; 1 wants name 0 too and is the
+   announced writer; 2 (names 1, 2) is compatible with both and has begun; 3 reads name 0 and is
+   held back behind the announced writer *)
+Definition ex_park : list (list req) := [[(0, MW)]; [(0, MW)]; [(2, MR); (1, MW)]; [(0, MR)]].
+Definition ex_park_state : state := run [0; 0; 0; 1; 2] (sys ex_park).
+Example C15_ex_blocked_premises :
+  (match nth_error (ths ex_park_state) 1 with Some t => final_thread t | None => true end,
+   enabled 1 ex_park_state, enabled 3 ex_park_state,
+   map present (ths ex_park_state)) = (false, false, false, [true; true; true; false]).
+Proof. vm_compute. reflexivity. Qed.
+(* the bystander's premise, decided: everybody present other than holder 2 is compatible with it;
+   and holder 2 can indeed move *)
+Example C15_ex_bystander :
+  (forallb (fun j => Nat.eqb j 2 || compatb (nth 2 ex_park []) (nth j ex_park [])) [0; 1; 2; 3],
+   enabled 2 ex_park_state) = (true, true).
+Proof. vm_compute. reflexivity. Qed.
+(* a compatible sub-family of an incompatible family: the two readers of ex_conflict *)
+Example C15_ex_subfamily :
+  exists sched, (forall i, In i sched -> In i [0; 2]) /\
+    run_strict sched (sys ex_conflict) <> None /\
+    forall i m, In i [0; 2] -> nth_error ex_conflict i = Some m ->
+                nth_error (ths (run sched (sys ex_conflict))) i = Some (TIn (lock_prog m)).
+Proof.
+  apply C15_compatible_subfamily_all_inside.
+  - intros i m [<-|[<-|[]]] H; cbn in H; inversion H; subst; repeat constructor; cbn; tauto.
+  - intros i j a b [<-|[<-|[]]] [<-|[<-|[]]] N Ha Hb; try congruence;
+      cbn in Ha, Hb; inversion Ha; inversion Hb; subst; apply compatb_spec; reflexivity.
+Qed.
+(* round-fair schedules: measure 13 for ex_conflict, 13 rounds in the order 2, 1, 0 *)
+Example C15_ex_fair_rounds :
+  (measure (sys ex_conflict), coversb 3 [2; 1; 0],
+   all_final (run (concat (repeat [2; 1; 0] 13)) (sys ex_conflict)),
+   all_final (run (concat (repeat [2; 1; 0] 3)) (sys ex_conflict))) = (13, true, true, false).
+Proof. vm_compute. reflexivity. Qed.
+Example C15_ex_effective :
+  effective [1; 1; 0; 2; 2; 0; 0; 7; 1] (sys ex_conflict) = 3.
+Proof. vm_compute. reflexivity. Qed.
+(* the trace of C15_ex_accepts shows the two readers inside together after its second event *)
+Example C15_ex_inside_after :
+  inside_after [EAcq 0; EAcq 2] [] = [2; 0] /\
+  inside_after [EAcq 0; EAcq 2; ERel 0; ERel 2; EAcq 1] [] = [1].
+Proof. vm_compute. split; reflexivity. Qed.
+(* nesting within the discipline: holder 0 holds name 0 and awaits its sub-task 1 that wants
+   name 1; holder 2 wants both.  The discipline holds, the parent is really held inside while
+   the sub-task runs, the schedule that deadlocks the crossed variant finishes here. *)
+Definition ex_nest_maps : list (list req) := [[(0, MW)]; [(1, MW)]; [(0, MW); (1, MW)]].
+Definition ex_nest_deps : list (list nat) := [[1]; []; []].
+Example C15_ex_nested_discipline :
+  (deps_forwardb ex_nest_deps, deps_closedb ex_nest_deps, deps_aboveb ex_nest_maps ex_nest_deps,
+   deps_aboveb ns_cross_maps ns_cross_deps) = (true, true, true, false).
+Proof. vm_compute. reflexivity. Qed.
+Example C15_ex_nested_runs :
+  let s := runN ex_nest_deps [0; 0; 0; 2; 2; 2; 1] (sys ex_nest_maps) in
+  (match stepN ex_nest_deps 0 s with Some _ => true | None => false end,
+   match stepN ex_nest_deps 1 s with Some _ => true | None => false end,
+   all_final (runN ex_nest_deps ([0; 0; 0; 2; 2; 2; 1] ++ [1;1;1;1; 0;0; 2;2;2;2;2;2;2]) (sys ex_nest_maps)))
+  = (false, true, true).
+Proof. vm_compute. reflexivity. Qed.
+Example C15_ex_nested_discipline_props :
+  deps_forward ex_nest_deps /\ deps_closed ex_nest_deps /\ deps_above ex_nest_maps ex_nest_deps.
+Proof.
+  split; [apply deps_forwardb_spec; reflexivity|].
+  split; [apply deps_closedb_spec; reflexivity|apply deps_aboveb_spec; reflexivity].
+Qed.
